@@ -967,6 +967,8 @@ func (m *MutableOverlayWorld) MergeInto(other MutableWorld) error {
 
 func (m *MutableOverlayWorld) Snapshot() b6.World {
 	copy := *m
+	// The index resolves the features it returns through the world it belongs to
+	copy.index.features = &copy
 	m.base = &copy
 	m.features = NewFeaturesByID()
 	m.references = NewFeatureReferences()
